@@ -185,11 +185,15 @@ def diag1dAt (v : List Int) (k : Int) (idx : Nat) : Int :=
   else if k < 0 ∧ i = j + k.natAbs then (if j < v.length then v.getD j 0 else 0)
   else 0
 
-theorem diag1d_eq (v : List Int) (k : Int) :
+theorem diag1d_eq (v : List Int) (k : Int)
+    (hb : (v.length + k.natAbs) * (v.length + k.natAbs) ≤ usizeMax) :
     diag1d (Arr.flat v) k = .ok ⟨(List.range ((v.length + k.natAbs) * (v.length + k.natAbs))).map (diag1dAt v k),
       [v.length + k.natAbs, v.length + k.natAbs]⟩ := by
   unfold diag1d
-  simp only [Arr.flat, Res.idx, List.getElem?_cons_zero, bind, Res.bind]
+  have hb1 : ¬ (v.length + k.natAbs > usizeMax ∨ (v.length + k.natAbs) * (v.length + k.natAbs) > usizeMax) := by
+    have : v.length + k.natAbs ≤ (v.length + k.natAbs) * (v.length + k.natAbs) := Nat.le_mul_self _
+    omega
+  simp only [Arr.flat, Res.idx, List.getElem?_cons_zero, bind, Res.bind, if_neg hb1]
   rw [mapM'_ok _ (diag1dAt v k)]
   · exact new_ok _ _ (by simp)
   · intro idx _
@@ -203,6 +207,22 @@ theorem diag1d_eq (v : List Int) (k : Int) :
         · rename_i h; simp [List.getD_eq_getElem?_getD, h]
         · rfl
       · rfl
+
+/-- a side `size + |k|` whose square does not fit `usize` is refused with an error value -/
+theorem diag1d_too_large (v : List Int) (k : Int)
+    (hb : (v.length + k.natAbs) * (v.length + k.natAbs) > usizeMax) :
+    diag1d (Arr.flat v) k = .err .OutOfBounds := by
+  unfold diag1d
+  simp only [Arr.flat, Res.idx, List.getElem?_cons_zero, bind, Res.bind]
+  rw [if_pos (Or.inr hb)]
+
+/-- `saturating_add` decides the three comparisons of `tri/tril/triu` exactly like unbounded addition, for
+every column index that fits `isize` with room to spare and every offset (even outside `isize`) -/
+theorem satAdd_cmp (j i k : Int) (hj0 : 0 ≤ j) (hj : j < isizeMax) (hi : 0 ≤ i) :
+    (j ≤ satAdd i k ↔ j ≤ i + k) ∧ (j > satAdd i k ↔ j > i + k) ∧ (j < satAdd i k ↔ j < i + k) := by
+  unfold satAdd isizeMin
+  unfold isizeMax at hj ⊢
+  omega
 
 /-- coordinates: the vector sits on the k-th diagonal -/
 theorem diag1dAt_coord (v : List Int) (k : Int) (i j : Nat)
@@ -251,10 +271,10 @@ theorem diagPairs_mem (r c : Nat) (k : Int) (p : Nat × Nat) (h : p ∈ diagPair
 theorem diag2d_eq (a : Arr Int) (r c : Nat) (k : Int) (hwf : a.WF) (hs : a.shape = [r, c]) :
     diag2d a k = .ok (Arr.flat ((diagPairs r c k).map fun p => a.elems.getD (p.1 * c + p.2) 0)) := by
   unfold diag2d
-  have hstart : (if k ≥ 0 then ((0 : Nat), k.toNat) else ((-k).toNat, 0)) = ((-k).toNat, k.toNat) := by
+  have hstart : (if k ≥ 0 then ((0 : Nat), k.toNat) else (k.natAbs, 0)) = ((-k).toNat, k.toNat) := by
     split
     · exact Prod.ext (by simp only; omega) rfl
-    · exact Prod.ext rfl (by simp only; omega)
+    · exact Prod.ext (by simp only; omega) (by simp only; omega)
   simp only [hs, Res.idx, List.getElem?_cons_zero, List.getElem?_cons_succ, bind, Res.bind, hstart]
   have hlen : a.elems.length = r * c := by rw [hwf, hs]; simp
   rw [show (List.range' (-k).toNat (r - (-k).toNat)).zip (List.range' k.toNat (c - k.toNat)) = diagPairs r c k from rfl]
